@@ -13,7 +13,9 @@ Fixpoint wd_lookup (t : wtree) (c : N) : N :=
     else code
   end.
 
-(* None for control characters, Some 0/1/2 otherwise *)
+(* None for control characters, Some 0/1/2 otherwise.  The table holds min(width, 2): the crate
+   clamps the width of a character to 2 (Screen::text, after the W1 repair), and unicode-width
+   0.2 reports 3 for U+17D8. *)
 Definition wd (c : N) : option N :=
   let k := wd_lookup wd_tree c in
   if k =? 3 then None else Some k.
